@@ -31,7 +31,7 @@ def one(rid):
         sh(f"git -C /repo worktree remove --force {w}")
 
 def main():
-    ids = sys.argv[1:] or sorted(d for d in os.listdir("/verif/refactors") if os.path.isdir("/verif/refactors/" + d))
+    ids = sys.argv[1:] or sorted(d for d in os.listdir("/verif/refactors") if os.path.isfile("/verif/refactors/" + d + "/patch.diff"))
     res = {}
     if os.path.exists("/verif/refactors/RESULTS.json"):
         res = json.load(open("/verif/refactors/RESULTS.json"))
